@@ -7,7 +7,7 @@ import textwrap
 
 import z3
 
-from .values import (Sym, SInt, SReal, SBool, SStr, SData, SList, SObj, SExc, SOpaque, SSlice,
+from .values import (Sym, SInt, SReal, SBool, SStr, SData, SList, SObj, SExc, SOpaque, SSlice, Star,
                      Unsupported, intern, TInt, TReal, TBool, TStr, TData, TList, TObj, TOpaque)
 from .ctx import PathEnd
 from .ops import str_term as ops_str_term
@@ -154,13 +154,15 @@ class ExprMixin:
         self.fresh_ids.add(id(v))
         return v
 
-    def ev_seq(self, elts):
+    def ev_seq(self, elts, allow_star=False):
         out = []
         for e in elts:
             if isinstance(e, ast.Starred):
                 v = self.ev(e.value)
                 if isinstance(v, (list, tuple)):
                     out.extend(v)
+                elif allow_star and isinstance(v, (SList, SOpaque)):
+                    out.append(Star(v))
                 else:
                     raise Unsupported("starred symbolic sequence")
             else:
@@ -518,6 +520,8 @@ class ExprMixin:
         h = getattr(base, "getitem", None)
         if h is not None:
             return h(self, idx, node)
+        if isinstance(base, SData) and getattr(base.ty.dt, "getitem", None) is not None:
+            return base.ty.dt.getitem(self, base, idx, node)
         if isinstance(base, SObj):
             return self.call_method(base, "__getitem__", [idx], {}, node)
         if isinstance(base, str) and isinstance(idx, int):
@@ -596,6 +600,13 @@ class ExprMixin:
         ety = type_of(v, self.reg)
         if ety is None:
             raise Unsupported("comprehension element type")
+        if isinstance(ety, TOpaque) and isinstance(it.elem, TData) and z3.is_const(it.arr):
+            # opaque results computed from datatype elements: a named array with the defining equation triggered from either side
+            # (so that a fact about source element k produces result element k and vice versa)
+            res = self.ctx.fresh("comp", z3.ArraySort(z3.IntSort(), ety.sort()))
+            body = ety.unwrap(v, self.ctx)
+            self.ctx.assume(z3.ForAll([j], z3.Implies(z3.And(0 <= j, j < it.len), res[j] == body), patterns=[res[j], it.arr[j]]))
+            return SList(it.len, res, ety)
         return SList(it.len, z3.Lambda([j], ety.unwrap(v, self.ctx)), ety)
 
     def filtered_comp(self, node, gen, it):
